@@ -64,6 +64,37 @@ theorem anyLabel_empty (env : Env) (d : Bytes) : emptyP.eval env d = Names.hasEm
   simp only [emptyP, SPred.eval, Names.hasEmptyLabel]
   congr 1; funext l; cases l <;> simp
 
+theorem beq_cast_comm (a k : Nat) : (((a : Int) == (k : Int)) : Bool) = (k == a) := by
+  by_cases h : a = k
+  · subst h; simp
+  · have h1 : ((a : Int) == (k : Int)) = false := by
+      apply beq_false_of_ne; omega
+    have h2 : (k == a) = false := by
+      apply beq_false_of_ne; exact fun e => h e.symm
+    rw [h1, h2]
+
+theorem anyByte_notAscii (env : Env) (s : Bytes) : (SPred.anyByte 0 .gt 127).eval env s = Names.notAscii s := by
+  simp only [SPred.eval, Cmp.eval, Names.notAscii, List.drop_zero]
+  congr 1; funext x; simp; omega
+
+theorem anyByte_null (env : Env) (s : Bytes) : (SPred.anyByte 0 .eq 0).eval env s = Names.hasNull s := by
+  simp only [SPred.eval, Cmp.eval, Names.hasNull, List.drop_zero]
+  induction s with
+  | nil => rfl
+  | cons a r ih => simp only [List.any_cons, List.contains_cons, ih]; congr 1; exact beq_cast_comm a 0
+
+theorem anyByte_wildcardNotFirst (env : Env) (s : Bytes) : (SPred.anyByte 1 .eq 42).eval env s = Names.wildcardNotFirst s := by
+  simp only [SPred.eval, Cmp.eval, Names.wildcardNotFirst]
+  induction (s.drop 1) with
+  | nil => rfl
+  | cons a r ih => simp only [List.any_cons, List.contains_cons, ih]; congr 1; exact beq_cast_comm a 42
+
+/-- the octet-scanning SAN rules, as translated now, are one loop with these predicates -/
+theorem octet_bodies :
+    bodyOf "e_ext_san_uri_not_ia5" = some (.ite (.anyS (fieldId "URIs") (.anyByte 0 .gt 127)) (.ret 6) (.ret 3))
+    ∧ bodyOf "e_san_dns_name_includes_null_char" = some (rfcBody (.anyByte 0 .eq 0))
+    ∧ bodyOf "e_san_wildcard_not_first" = some (rfcBody (.anyByte 1 .eq 42)) := by decide +kernel
+
 /-! ### what the terms compute -/
 
 theorem rfcBody_eval (env : Env) (v : View) (p : SPred) :
